@@ -627,6 +627,13 @@ func prefixComma(as []string) string {
 }
 
 // runOverlayTest runs an in-package test file against the repository without writing into it.
+func goEnv(k string) string {
+	cmd := exec.Command("go", "env", k)
+	cmd.Env = append(os.Environ(), "GOTOOLCHAIN=local")
+	out, _ := cmd.Output()
+	return string(out)
+}
+
 func runOverlayTest(repo, pkgDir, src string, timeout time.Duration, extraEnv []string) (string, error) {
 	tmp, err := os.MkdirTemp("", "govc-replay-")
 	if err != nil {
@@ -646,6 +653,15 @@ func runOverlayTest(repo, pkgDir, src string, timeout time.Duration, extraEnv []
 	argv := []string{"test", "-overlay", ovf, "-vet=off", "-count=1", "-timeout", fmt.Sprintf("%ds", int(timeout.Seconds())), "-run", "^TestVerifReplay$", "-v", "."}
 	if strings.Contains(src, "//verif:race") {
 		argv = append([]string{"test", "-race"}, argv[1:]...)
+	}
+	if strings.Contains(src, "//verif:wasm") {
+		// run the js/wasm test binary under node with the toolchain's own wrapper
+		root := strings.TrimSpace(goEnv("GOROOT"))
+		wrapper := filepath.Join(root, "lib", "wasm", "go_js_wasm_exec")
+		if _, err := os.Stat(wrapper); err != nil {
+			wrapper = filepath.Join(root, "misc", "wasm", "go_js_wasm_exec")
+		}
+		argv = append([]string{"test", "-exec", wrapper}, argv[1:]...)
 	}
 	cmd := exec.CommandContext(ctx, "go", argv...)
 	cmd.Dir = pkgDir
@@ -850,6 +866,16 @@ func replayFunction(run *PropRun, g *ObGroup) ReplayOutcome {
 	if err != nil {
 		return ReplayOutcome{Detail: "harness generation: " + err.Error()}
 	}
+	var xenv []string
+	if run.Def.WasmLoad {
+		// js/wasm: run under node, with do-nothing stand-ins for the functions webfiles/tcell.js would provide
+		xenv = []string{"GOOS=js", "GOARCH=wasm"}
+		src = "//verif:wasm\n" + src
+		if !strings.Contains(src, "\"syscall/js\"") {
+			src = strings.Replace(src, "import (\n", "import (\n\t\"syscall/js\"\n", 1)
+		}
+		src = strings.Replace(src, "func TestVerifReplay(t *testing.T) {\n", "func TestVerifReplay(t *testing.T) {\n\tfor _, n := range []string{\"drawCell\", \"clearScreen\", \"show\", \"showCursor\", \"resize\", \"beep\", \"setTitle\", \"setCursorStyle\"} {\n\t\tjs.Global().Set(n, js.FuncOf(func(this js.Value, args []js.Value) interface{} { return nil }))\n\t}\n", 1)
+	}
 	pkgDir := ""
 	if p := run.Eng.PkgBy[fn.Pkg.Pkg.Path()]; p != nil && len(p.GoFiles) > 0 {
 		pkgDir = filepath.Dir(p.GoFiles[0])
@@ -857,7 +883,7 @@ func replayFunction(run *PropRun, g *ObGroup) ReplayOutcome {
 	if pkgDir == "" {
 		return ReplayOutcome{Detail: "package directory not found"}
 	}
-	out, rerr := runOverlayTest(run.Eng.Repo, pkgDir, src, 60*time.Second, nil)
+	out, rerr := runOverlayTest(run.Eng.Repo, pkgDir, src, 60*time.Second, xenv)
 	ro := ReplayOutcome{Ran: true, Output: tail(out, 4000), Inputs: inputs}
 	idx := strings.Index(out, "VERIF-OUT ")
 	if idx < 0 {
@@ -1017,10 +1043,12 @@ func evalClausesConcrete(run *PropRun, c0 *Ctx, g *ObGroup, ins []interface{}, r
 		}
 	}
 	base := fnDisplay(fn)
+	skipped := map[string]string{}
 	tryClause := func(name, kind string, f func()) {
 		defer func() {
 			if r := recover(); r != nil {
-				if _, ok := r.(VerErr); ok {
+				if ve, ok := r.(VerErr); ok {
+					skipped[name] = ve.Msg
 					return
 				}
 				panic(r)
@@ -1074,6 +1102,9 @@ func evalClausesConcrete(run *PropRun, c0 *Ctx, g *ObGroup, ins []interface{}, r
 	if len(failed) > 0 {
 		return true, "on the real code's outputs these clauses are false: " + strings.Join(failed, ", ")
 	}
+	if msg, ok := skipped[g.Name]; ok {
+		return false, "the clause could not be evaluated on the real code's concrete outputs: " + msg
+	}
 	return false, "the real code's outputs satisfy the clause on the model's inputs (spurious model: a callee contract or assumed contract is weaker than the code)"
 }
 
@@ -1083,7 +1114,25 @@ func replayCustom(run *PropRun, g *ObGroup) ReplayOutcome {
 	if pkgDir == "" {
 		pkgDir = run.Eng.Repo
 	}
-	out, err := runOverlayTest(run.Eng.Repo, pkgDir, g.ReplayGo, 60*time.Second, nil)
+	if strings.HasPrefix(g.ReplayGo, "//verif:wasmbuild") {
+		cmd := exec.Command("go", "build", "-o", os.DevNull, ".")
+		cmd.Dir = pkgDir
+		cmd.Env = append(os.Environ(), "GOFLAGS=-mod=mod", "GOPROXY=off", "GOSUMDB=off", "GOTOOLCHAIN=local", "GOOS=js", "GOARCH=wasm")
+		ob, err := cmd.CombinedOutput()
+		ro := ReplayOutcome{Ran: true, Output: tail(string(ob), 3000)}
+		if err != nil {
+			ro.Confirmed = true
+			ro.Detail = "GOOS=js GOARCH=wasm go build fails on the real code: " + firstLine(strings.TrimPrefix(strings.TrimSpace(string(ob)), "# github.com/gdamore/tcell/v2\n"))
+		} else {
+			ro.Detail = "GOOS=js GOARCH=wasm go build succeeds"
+		}
+		return ro
+	}
+	var xenv []string
+	if strings.Contains(g.ReplayGo, "//verif:wasm") {
+		xenv = []string{"GOOS=js", "GOARCH=wasm"}
+	}
+	out, err := runOverlayTest(run.Eng.Repo, pkgDir, g.ReplayGo, 60*time.Second, xenv)
 	ro := ReplayOutcome{Ran: true, Output: tail(out, 3000)}
 	if strings.Contains(g.ReplayGo, "//verif:race") && strings.Contains(out, "WARNING: DATA RACE") {
 		ro.Confirmed = true
